@@ -763,6 +763,27 @@ def check_static_map(ctx: Context, rep, rule: str) -> None:
     rep.ob(rule, rem == ["static_iter::RustIter::__exit__"], loc=f"{LIB}:1",
            where="static_iter", construct=f"remove in {rem}",
            message="state is dropped on __exit__ (threads are joined by Drop)")
+    # the key of a new entry cannot collide with a live iterator's key
+    new = ctx.rust.fn(LIB, "static_iter::RustIter::new")
+    inserts = [n for n in new.method_calls("insert")
+               if "hash_map" in norm(text(n["recv"])) and n["args"]]
+    for ins_call in inserts:
+        key = ins_call["args"][0]
+        kt = norm(text(key))
+        src_t = kt
+        for loc_ in walk(new.body):
+            if kind(loc_, "Local") and kind(loc_.get("pat"), "PIdent") and \
+                    loc_["pat"]["name"] == kt and isinstance(
+                        loc_.get("init"), dict):
+                src_t = norm(text(loc_["init"]))
+        unique = any(w in src_t for w in ("rand::random", "fetch_add",
+                                          "Uuid::new_v4", "thread_rng"))
+        rep.ob(rule, unique and ".len()" not in src_t, loc=new.loc(ins_call),
+               where=new.qual, construct=f"key = {src_t[:60]}",
+               message="the key of a new iterator is drawn from a source "
+               "that does not depend on the map's current content (entries "
+               "are removed on __exit__, so a key derived from len() can "
+               "equal the key of a live iterator and replace its state)")
     nx = ctx.rust.fn(LIB, "static_iter::<Iterator for RustIter>::next")
     oi = order_index(nx)
     guards = [n for n in walk(nx.body) if kind(n, "If") and
